@@ -64,6 +64,9 @@ theorem exec_keepsGone {p : Nat} {o : Op} (ho : o.keepsGone p) {s : St} (hs : Pa
   | cacheGet t => exact hs
   | cacheSet t v => exact hs
   | newTok sk => exact hs
+  | allocId x sk =>
+    simp only [exec]
+    split <;> exact hs
   | newLease lk => exact hs
 
 section
@@ -130,7 +133,7 @@ section
 variable {p : Nat}
 local notation "K" => Op.keepsGone p
 
-theorem al_cubDestroy (t : Nat) : Always K (cubDestroy t) := by
+theorem al_cubDestroy (t : CubKey) : Always K (cubDestroy t) := by
   unfold cubDestroy
   simp only [bind_eq, pure_eq]
   al_auto
@@ -187,10 +190,12 @@ theorem al_riFinish (t : Nat) (r : Except Err Unit) : Always K (riFinish t r) :=
 theorem al_riBody (t : Nat) (e : TokEntry) (ol : List Nat → Prog Unit) : Always K (riBody t e true ol) := by
   unfold riBody
   simp only [bind_eq, pure_eq]
-  refine Always.bind (al_cubDestroy t) fun _ => ?_
-  refine Always.bind (al_revokeByToken t) fun _ => ?_
-  simp only [Bool.not_true, Bool.false_eq_true, if_false]
-  al_auto
+  split
+  · refine Always.bind (al_cubDestroy _) fun _ => ?_
+    refine Always.bind (al_revokeByToken t) fun _ => ?_
+    simp only [Bool.not_true, Bool.false_eq_true, if_false]
+    al_auto
+  · exact Always.ret
 
 end
 
